@@ -131,11 +131,16 @@ fn judge_one(cx: &Cx, c: &Compared, obs: &Obs, flavour: &str, event: usize, cnt:
     }
 }
 
-fn explore_part(cx: &Cx, refs: &Schema, schema: &s1::S1, gcfg: &GenCfg, flavour: &str, bounds: [u32; 4], cnt: &Cnt) {
-    let menu = MenuCfg { errors: true, non_finite: false, wrong_kind: false, rich: false };
+fn explore_part(cx: &Cx, refs: &Schema, target: &Target, gcfg: &GenCfg, flavour: &str, bounds: [u32; 4], cnt: &Cnt) {
+    let dynamic = matches!(target, Target::Dynamic(_));
+    let menu = MenuCfg { errors: true, non_finite: false, wrong_kind: dynamic, rich: false };
+    let base_filter = agv_common::dynamic::world_filter(refs);
+    // a subscription event of an object type cannot be null in the dynamic API either
+    let dyn_filter = |p: &[Seg], t: &agv_refgql::ast::Type, item: bool, a: &Ans| base_filter(p, t, item, a) && !(p.len() == 1 && *a == Ans::Null && refs.is_object(t.base()) && gcfg.op == OpKind::Subscription);
+    let filter: Option<agv_common::casecheck::WorldFilter> = if dynamic { Some(&dyn_filter) } else { None };
     let st = explore(
         &ExploreCfg { bounds, ..Default::default() },
-        &|ch: &mut Chooser| match run_static2(refs, &Target::Static(schema), gcfg, ch, menu, Class::Dev(1), Some(Class::Dev(2)), None) {
+        &|ch: &mut Chooser| match run_static2(refs, target, gcfg, ch, menu, Class::Dev(1), Some(Class::Dev(2)), filter) {
             CaseOutcome::NotDoc => {
                 cnt.not_doc.fetch_add(1, Ordering::Relaxed);
                 None
@@ -153,7 +158,7 @@ fn explore_part(cx: &Cx, refs: &Schema, schema: &s1::S1, gcfg: &GenCfg, flavour:
                 cx.violation(Violation::new("panic", format!("execute panicked: {msg}"), case).key("flavour", flavour));
                 None
             }
-            CaseOutcome::Ran(c) if flavour == "static-subscription" && c.doc.ops().next().map(|o| o.sel.len() != 1).unwrap_or(true) => {
+            CaseOutcome::Ran(c) if flavour.ends_with("-subscription") && c.doc.ops().next().map(|o| o.sel.len() != 1).unwrap_or(true) => {
                 // several root field nodes (even with one response key) open one stream each in this
                 // library; what a merged subscription root means is outside this property
                 let _ = c;
@@ -206,11 +211,23 @@ fn run(cx: &Cx) {
     // bounds: [decorations, value deviations, faults, -]
     let conds: &[&str] = &["A", "B", "I", "U"];
     let q = GenCfg { schema: &refs, fields: Q_FIELDS, conds, max_nodes: qn, max_depth: 3, named_fragments: 1, deco: Some(Class::Dev(0)), typename: false, op: OpKind::Query, root_fragments: true };
-    explore_part(cx, &refs, &schema, &q, "static-query", [if cx.quick() { 0 } else { 1 }, vdev, 2, 0], &cnt);
+    explore_part(cx, &refs, &Target::Static(&schema), &q, "static-query", [if cx.quick() { 0 } else { 1 }, vdev, 2, 0], &cnt);
     let m = GenCfg { schema: &refs, fields: M_FIELDS, conds: &[], max_nodes: mn, max_depth: 3, named_fragments: 0, deco: None, typename: false, op: OpKind::Mutation, root_fragments: true };
-    explore_part(cx, &refs, &schema, &m, "static-mutation", [0, vdev + 1, 2, 0], &cnt);
+    explore_part(cx, &refs, &Target::Static(&schema), &m, "static-mutation", [0, vdev + 1, 2, 0], &cnt);
     let s = GenCfg { schema: &refs, fields: S_FIELDS, conds: &[], max_nodes: 4, max_depth: 3, named_fragments: 0, deco: None, typename: false, op: OpKind::Subscription, root_fragments: false };
-    explore_part(cx, &refs, &schema, &s, "static-subscription", [0, vdev + 1, 2, 0], &cnt);
+    explore_part(cx, &refs, &Target::Static(&schema), &s, "static-subscription", [0, vdev + 1, 2, 0], &cnt);
+    // dynamic flavour: the dynamic twin of S1; faults additionally include values of the wrong kind and
+    // nothing / null for a non-null type
+    let dynamic = match agv_common::dynamic::build(&refs, agv_common::dynamic::Encoding::default()) {
+        Ok(d) => d,
+        Err(e) => return cx.machinery_error(format!("dynamic twin of S1 does not build: {e}")),
+    };
+    let dq = GenCfg { max_nodes: if cx.quick() { 2 } else { 3 }, ..GenCfg { schema: &refs, fields: Q_FIELDS, conds, max_nodes: qn, max_depth: 3, named_fragments: 1, deco: Some(Class::Dev(0)), typename: false, op: OpKind::Query, root_fragments: true } };
+    explore_part(cx, &refs, &Target::Dynamic(&dynamic), &dq, "dynamic-query", [0, vdev, 2, 0], &cnt);
+    let dm = GenCfg { schema: &refs, fields: M_FIELDS, conds: &[], max_nodes: mn, max_depth: 3, named_fragments: 0, deco: None, typename: false, op: OpKind::Mutation, root_fragments: true };
+    explore_part(cx, &refs, &Target::Dynamic(&dynamic), &dm, "dynamic-mutation", [0, vdev + 1, 2, 0], &cnt);
+    let ds = GenCfg { schema: &refs, fields: S_FIELDS, conds: &[], max_nodes: 4, max_depth: 3, named_fragments: 0, deco: None, typename: false, op: OpKind::Subscription, root_fragments: false };
+    explore_part(cx, &refs, &Target::Dynamic(&dynamic), &ds, "dynamic-subscription", [0, vdev + 1, 2, 0], &cnt);
 
     let agree = cnt.agree_with_fault.load(Ordering::Relaxed);
     if agree == 0 {
@@ -226,7 +243,7 @@ fn run(cx: &Cx) {
     cx.extra("agreements_with_faults", json!(agree));
     cx.assume("errors inside a subtree discarded by another reported error's propagation are optional (the spec allows cancelling siblings); everything else is mandatory");
     cx.assume("error messages, extensions and error order are not compared");
-    cx.assume("static flavour only in this check crate; the dynamic flavour is covered by the dynamic twin in C02's crate when built");
+    cx.assume("dynamic flavour = the dynamic twin of S1 (common/src/dynamic.rs); its fault menu adds values of the wrong kind and nothing/null for a non-null type");
 }
 
 fn replay(case: &J) -> String {
